@@ -18,6 +18,9 @@ for p in props:
         na.append({'property_id': pid, 'reason': na_reasons.get(pid, 'no check built yet in this round (planned design in DESIGN.md §5); not claimed')})
         continue
     plug = importlib.import_module(f'harness.props.{pid}')
+    if not getattr(plug, 'READY', False):
+        na.append({'property_id': pid, 'reason': na_reasons.get(pid, 'check under construction (plug-in present but not yet green on the unchanged tree); not claimed')})
+        continue
     m = plug.META
     checks.append({
         'property_id': pid,
